@@ -82,6 +82,15 @@ FIXED = [
     ("tuple", "template A() { signal input x; signal output y; signal output z; y <== x; z <== x; } template T() { signal input a; signal output b; "
               "signal output c; (b, c) <== A()(a); (_, b) <== A()(a); }"),
     ("main", "template T() { signal input a; signal output b; b <== a; } component main {public [a]} = T();"),
+    # third audit (C12): signals and components DECLARED under control flow (in a loop, in both branches of an if, after a
+    # branch), so that the block and the loop depth a declaration lands in are looked at
+    ("decl_in_loop", "template A() { signal input x; signal output y; y <== x; } template T(n) { signal input a; signal output b; var s = 0; "
+                     "for (var i = 0; i < n; i++) { signal t; t <== a * i; component c = A(); c.x <== t; s += c.y; while (s > 3) { signal w; "
+                     "w <-- s; s -= 1; } } b <== s; }"),
+    ("decl_in_if", "template A() { signal input x; signal output y; y <== x; } template T(n) { signal input a; if (n > 2) { signal u; u <== a; "
+                   "component c = A(); c.x <== u; } else { signal v; v <-- a; assert(v == a); } signal output b; b <== a; log(\"b\", b); }"),
+    ("decl_after_loop", "template T(n) { signal input a; var i = 0; while (i < n) { i += 1; if (i % 2 == 0) { log(i); } } signal output o; "
+                        "component main_c; o <== a * i; a * a === o; }"),
 ]
 
 
@@ -94,8 +103,8 @@ def gen_programs(rng, quick):
         out.append(("proggen/%d" % i, g.program()))
     for i in range(n_targ):
         out.append(("targeted/%d" % i, proggen.targeted(rng)))
-    for label, src, _mode, _f in c18rand.programs(rng, n_rand):
-        out.append(("c18" + label, src))
+    for item in c18rand.programs(rng, n_rand):     # (label, source, ...): only the first two fields are used here
+        out.append(("c18" + item[0], item[1]))
     for label, src in c18rand.deep():
         out.append(("c18deep/" + label, src))
     for label, src in c18gen.matrix():
@@ -111,17 +120,61 @@ def gen_programs(rng, quick):
     return out
 
 
-def split_fields(line):
-    """harness line -> [(def sexp, result text)] or a status string"""
+def split_records(line):
+    """harness line -> [(def sexp, result text, wf text or None)] or a status string.
+    A definition is `DEF d RES r` followed, in the modes `desugared` and `raw` (third audit), by `WF w`
+    (the C12 view of the same definition: nesting, block lists before and after into_ssa, accessors)."""
     parts = line.split("\t")
     if parts[0] in ("PARSE", "SUGAR", "EMPTY"):
         return " ".join(parts)
     out = []
-    for i in range(0, len(parts), 4):
-        if parts[i] != "DEF" or parts[i + 2] != "RES":
+    i = 0
+    while i < len(parts):
+        if parts[i] != "DEF" or i + 3 >= len(parts) or parts[i + 2] != "RES":
             return "malformed harness line: " + line[:200]
-        out.append((parts[i + 1], parts[i + 3]))
+        wf = None
+        step = 4
+        if i + 5 < len(parts) and parts[i + 4] == "WF":
+            wf = parts[i + 5]
+            step = 6
+        out.append((parts[i + 1], parts[i + 3], wf))
+        i += step
     return out
+
+
+def split_fields(line):
+    """harness line -> [(def sexp, result text)] or a status string (the WF field, if any, is dropped:
+    see split_records)."""
+    f = split_records(line)
+    if isinstance(f, str):
+        return f
+    return [(d, r) for d, r, _ in f]
+
+
+def differs_in(model, impl):
+    """Which part of `(ok X <rich dump> C <standard dump> R (reports ..))` differs: a difference confined to the rich
+    dump is one of expression / block metas, log strings, tags or declaration records - the statements, their metas,
+    the blocks and the edges (everything a theorem of C04 / C08 / C12 / C13 reads) are then equal."""
+    def parts(t):
+        if not (t.startswith("(ok X ") and " C (cfg " in t and " R (reports" in t):
+            return None
+        x, rest = t[6:].split(" C (cfg ", 1)
+        c, rep = rest.rsplit(" R (reports", 1)
+        return x, c, rep
+    a, b = parts(model), parts(impl)
+    if a is None or b is None:
+        return "the ok / error / panic decision or the error report"
+    out = []
+    if a[1] != b[1]:
+        out.append("standard dump (statements, blocks, edges, declarations)")
+    if a[2] != b[2]:
+        out.append("reports pushed while lifting")
+    if a[0] != b[0] and not out:
+        out.append("rich dump only (metas of expression nodes / blocks, log strings, tags, declaration records): no statement, "
+                   "statement meta, block or edge differs")
+    elif a[0] != b[0]:
+        out.append("rich dump")
+    return "; ".join(out)
 
 
 def first_difference(a, b):
@@ -132,16 +185,27 @@ def first_difference(a, b):
     return n
 
 
-def run(common, rng, quick, extra_programs=()):
+def run(common, rng, quick, extra_programs=(), programs=None, walk_bound=None):
     """Runs the comparison.  Returns a dict with counts, disagreements, wf
     failures, theorem cross-check failures and samples."""
     hb = common.build_harness("liftfull")
     mb = common.build_model("liftfull")
-    programs = list(extra_programs) + gen_programs(rng, quick)
+    if programs is None:
+        programs = list(extra_programs) + gen_programs(rng, quick)
+    else:
+        programs = list(extra_programs) + list(programs)
     stats = {"programs": len(programs), "definitions": 0, "ok": 0, "err": 0, "panic": 0, "statuses": {},
              "by_source": {}, "raw_definitions": 0, "raw_panics": 0, "raw_ok": 0, "raw_err": 0,
              "shadow_reports": 0, "ir_statements": 0, "renamed_definitions": 0}
     disagreements, wf_failures, thm_failures, samples = [], [], [], []
+    c12_bad = []
+    shared_meta = {"evaluated": 0, "definitions_with_statements_sharing_a_meta": 0, "not_printed": 0}
+    shape = {"evaluated": 0, "desugared_shape": 0, "parser_shaped": 0, "not_printed": 0}
+    errors = {"compared_with_name_and_location": 0, "compared_by_kind_only": {}, "kinds": {}}
+    walk = {"bound": walk_bound, "definitions": 0, "decision_lists": 0, "ending_in_return": 0, "with_more_than_one_list": 0,
+            "not_evaluated": {}}
+    walk_failures = []
+    views = {}    # DEF text -> C12 view of the real graph (first occurrence)
     for mode in ("desugared", "raw"):
         if mode == "raw":
             progs = [p for p in programs if p[0].startswith(("c18", "fixed/"))]
@@ -154,6 +218,15 @@ def run(common, rng, quick, extra_programs=()):
         defs = []   # (label, src, def sexp, impl result)
         for (label, src), line in zip(progs, impl):
             f = split_fields(line)
+            if not isinstance(f, str) and mode == "desugared":
+                # third audit: the C12 clauses on every definition of this stage (filed under C12 by lib/props/C12.py,
+                # which runs the same evaluation on its own programs; here they are counted so that C13's evidence says so)
+                for d_, r_, w_ in split_records(line):
+                    view = c12_view(w_)
+                    views.setdefault(d_, view)
+                    stats["c12_views"] = stats.get("c12_views", 0) + 1
+                    if view is None or c12_failures(view):
+                        c12_bad.append({"src": src, "label": label, "wf": (w_ or "")[:600]})
             if isinstance(f, str):
                 k = f.split(" ")[0] + " " + (f.split(" ") + [""])[1]
                 stats["statuses"][mode + ":" + k] = stats["statuses"].get(mode + ":" + k, 0) + 1
@@ -169,7 +242,8 @@ def run(common, rng, quick, extra_programs=()):
             if d not in uniq:
                 uniq[d] = len(uniq)
         ulist = sorted(uniq, key=uniq.get)
-        umodel = common.run_lines(mb, [], ulist, shards=common.NPROC)
+        margs = ["tt", str(walk_bound)] if (walk_bound and mode == "desugared") else []
+        umodel = common.run_lines(mb, margs, ulist, shards=common.NPROC)
         if len(umodel) != len(ulist):
             raise common.BuildError("liftfull engine: model output length mismatch", "%d %d" % (len(umodel), len(ulist)))
         stats["distinct_" + mode] = len(ulist)
@@ -204,6 +278,50 @@ def run(common, rng, quick, extra_programs=()):
                     wf_failures.append({"src": src, "label": label, "def": d[:3000], "impl": r[:300]})
                 if kind == "ok" and (flags.get("SK") != "1" or flags.get("PV") != "1"):
                     thm_failures.append({"src": src, "label": label, "def": d[:3000], "flags": flags})
+                if first and walk_bound and kind == "ok":
+                    # third audit: the trace / walk oracle of C13 on CONTENT-CARRYING definitions: the structured semantics
+                    # of the source skeleton (Spec.CfgSpec.trace_tree, extracted, statements named by their metas) under
+                    # every decision list up to the bound must be contained in the walk of the REAL graph
+                    why = None
+                    view = views.get(d)
+                    if "TT" not in flags:
+                        why = "the model driver printed no trace tree"
+                    elif view is None or view["before"] in ("error", "panic"):
+                        why = "no block list of the real graph"
+                    else:
+                        try:
+                            ttree = lifteng.parse_tree(flags["TT"])
+                            wtree = walk_tree(lifteng.parse_blocks(view["before"]), walk_bound)
+                        except (ValueError, IndexError):
+                            why = "unreadable tree / block list"
+                    if why:
+                        walk["not_evaluated"][why] = walk["not_evaluated"].get(why, 0) + 1
+                    else:
+                        walk["definitions"] += 1
+                        walk["decision_lists"] += len(ttree)
+                        walk["ending_in_return"] += sum(1 for t in ttree if t[2] == 'R')
+                        walk["with_more_than_one_list"] += len(ttree) > 1
+                        bad = lifteng.containment_failures(ttree, wtree)
+                        if bad:
+                            walk_failures.append({"src": src, "label": label, "def": d[:2000], "bad": bad[:3],
+                                                  "impl": view["before"][:2000], "trace_tree": flags["TT"][:1500]})
+                if first:
+                    # which definitions have statements that share a meta (the by-meta theorems do not order those);
+                    # the hypothesis of C12_lift_never_panics (desugared_shape) and the narrower parser_shaped it replaced
+                    if flags.get("MD") in ("0", "1"):
+                        shared_meta["evaluated"] += 1
+                        shared_meta["definitions_with_statements_sharing_a_meta"] += flags["MD"] == "0"
+                    else:
+                        shared_meta["not_printed"] += 1
+                    if flags.get("DS") in ("0", "1") and flags.get("PS") in ("0", "1"):
+                        shape["evaluated"] += 1
+                        shape["desugared_shape"] += flags["DS"] == "1"
+                        shape["parser_shaped"] += flags["PS"] == "1"
+                        if flags["DS"] != "1":
+                            wf_failures.append({"src": src, "label": label, "def": d[:3000], "impl": r[:300],
+                                                "hypothesis": "desugared_shape (C12_lift_never_panics)"})
+                    else:
+                        shape["not_printed"] += 1
             else:
                 stats["raw_definitions"] += 1
                 if not first:
@@ -217,15 +335,213 @@ def run(common, rng, quick, extra_programs=()):
                     stats["raw_ok"] += 1
                 else:
                     stats["raw_err"] += 1
+            if r.startswith("(err "):
+                k_err = r[5:].split(" ", 1)[0].rstrip(")")
+                if first:
+                    errors["kinds"][k_err] = errors["kinds"].get(k_err, 0) + 1
+                if text == "(err %s)" % k_err and r.startswith("(err %s (rep " % k_err):
+                    # the mirror does not carry name / location of this error kind (invalid-name: unreachable from parsed
+                    # sources): compared by kind only - counted, never silently
+                    if first:
+                        errors["compared_by_kind_only"][k_err] = errors["compared_by_kind_only"].get(k_err, 0) + 1
+                    text = r
+                elif first and text == r:
+                    errors["compared_with_name_and_location"] += 1
             if text != r:
                 i = first_difference(text, r)
                 disagreements.append({"src": src, "label": label, "mode": mode, "def": d[:4000],
                                       "impl": r[max(0, i - 200):i + 300], "model": text[max(0, i - 200):i + 300],
-                                      "first_difference_at": i, "model_panic_site": site})
+                                      "first_difference_at": i, "model_panic_site": site,
+                                      "differs_in": differs_in(text, r)})
             elif len(samples) < 2 and mode == "desugared" and r.startswith("(ok ") and 600 < len(r) < 2500 and "(if (m" in r:
                 samples.append({"src": src, "impl_equals_model": r[:1200]})
     return {"stats": stats, "disagreements": disagreements, "wf_failures": wf_failures, "thm_failures": thm_failures,
-            "samples": samples}
+            "samples": samples, "c12_bad": c12_bad, "shared_meta": shared_meta, "shape": shape, "errors": errors,
+            "walk": walk, "walk_failures": walk_failures}
+
+
+def walk_blocks(blocks, ds, cap=20000):
+    """The walk of the property text on a parsed block list (the rule of harness/src/bin/lift.rs `walk` and of
+    Spec.CfgSpec.step): statements in order; at a branch the true edge, on false the recorded false target, else the only
+    other successor, else stop; at the end of a block without branch the only successor.  -> (observations, status)
+    with status E = stopped, X = a decision was needed and none was left, D = step cap."""
+    out = []
+    b = k = d = 0
+    for _ in range(cap):
+        if not (0 <= b < len(blocks)):
+            return out, 'E'
+        blk = blocks[b]
+        its = blk["items"]
+        if k < len(its):
+            it = its[k]
+            if it[0] == 'P':
+                k += 1
+            elif it[0] == 'L':
+                out.append("L" + it[1])
+                k += 1
+            else:
+                _, c, t, f = it
+                out.append("C" + c)
+                if d >= len(ds):
+                    return out, 'X'
+                dec = ds[d]
+                d += 1
+                if dec:
+                    b, k = t, 0
+                else:
+                    if f is None:
+                        others = [x for x in blk["succs"] if x != t]
+                        f = others[0] if len(others) == 1 else None
+                    if f is None:
+                        return out, 'E'
+                    b, k = f, 0
+        else:
+            if (its and its[-1][0] == 'C') or len(blk["succs"]) != 1:
+                return out, 'E'
+            b, k = blk["succs"][0], 0
+    return out, 'D'
+
+
+def walk_tree(blocks, n):
+    """[(bits, [events], status)] under every decision list up to length n (as `explore` of lift.rs)."""
+    acc = []
+
+    def go(ds, left):
+        tr, st = walk_blocks(blocks, ds)
+        if st == 'X' and left > 0:
+            go(ds + [True], left - 1)
+            go(ds + [False], left - 1)
+        else:
+            acc.append(("".join("1" if x else "0" for x in ds), tr, st))
+    go([], n)
+    return acc
+
+
+# --------------------------------------------------------------------------
+# third audit: property C12 on the definitions of this engine
+# --------------------------------------------------------------------------
+
+def c12_view(wf):
+    """'(wf <nest> # <blocks after into_cfg> # <blocks after into_ssa|skipped|error|panic|-> # <api>)' ->
+    {"nest": [(id, depth)], "before": text, "after": text, "api": text} or None"""
+    if not wf or not (wf.startswith("(wf ") and wf.endswith(")")):
+        return None
+    parts = wf[4:-1].split(" # ")
+    if len(parts) != 4:
+        return None
+    nest = []
+    for tok in parts[0].split():
+        ident, _, dep = tok.rpartition(":")
+        if not dep.isdigit():
+            return None
+        nest.append((ident, int(dep)))
+    return {"nest": nest, "before": parts[1], "after": parts[2], "api": parts[3]}
+
+
+def c12_failures(view):
+    """The clauses of C12 (lifteng.wellformed_failures; the last clause as the equality of lists of
+    C12_loop_depth_is_nesting, statements named by their metas) on the graph after into_cfg and after into_ssa
+    (phis first, branch last), plus the accessor check.  `error` / `panic` of into_cfg are no C12 matter here
+    (the definition did not lift: C13's stage compares that decision with the mirror); `error` of into_ssa is a
+    legitimate answer (a variable read before it is written), `panic` is reported."""
+    bad = []
+    for which in ("before", "after"):
+        text = view[which]
+        if text in ("error", "-", "skipped") or (which == "before" and text == "panic"):
+            continue
+        if text == "panic":
+            bad.append("into_ssa panics")
+            continue
+        try:
+            blocks = lifteng.parse_blocks(text)
+        except (ValueError, IndexError):
+            bad.append("unreadable block list %s" % text[:200])
+            continue
+        bad += [("into_cfg: " if which == "before" else "into_ssa: ") + b
+                for b in lifteng.wellformed_failures(blocks, None, nest=view["nest"])]
+    if view["api"] not in ("ok", "-"):
+        bad.append("accessors disagree with the block iterator: " + view["api"])
+    return bad
+
+
+def c12_stage(common, rng, quick, extra_programs=()):
+    """C12 on templates and functions as the production code lifts them: the REAL parser, desugarer,
+    `impl TryLift for &TemplateData / &FunctionData` and `into_ssa` on every definition of the programs of
+    gen_programs (templates with signal / component declarations, constraints, both arrows, assert, log; functions),
+    each block list checked against the clauses of the property.  Only the harness runs here (no mirror).
+    -> {"failing": [..with the source as input..], "stats": {..}}"""
+    import collections
+    hb = common.build_harness("liftfull")
+    programs = list(extra_programs) + gen_programs(rng, quick)
+    lines = [c18gen.escape(s) for _, s in programs]
+    impl = common.run_lines(hb, [], lines, shards=common.NPROC)
+    if len(impl) != len(lines):
+        raise common.BuildError("liftfull engine (C12 stage): output length mismatch", "%d %d" % (len(impl), len(lines)))
+    stats = collections.Counter()
+    kinds = collections.Counter()
+    feats = collections.Counter()
+    by_source = collections.Counter()
+    failing, seen = [], set()
+    for (label, src), line in zip(programs, impl):
+        f = split_records(line)
+        if isinstance(f, str):
+            stats["sources without a definition (%s)" % " ".join(f.split(" ")[:2])] += 1
+            if f.startswith("malformed"):
+                failing.append({"input": src, "label": label, "impl": f, "spec": ["the harness line is readable"]})
+            continue
+        for d, r, w in f:
+            stats["definitions"] += 1
+            if d in seen:
+                continue
+            seen.add(d)
+            stats["distinct_definitions"] += 1
+            view = c12_view(w)
+            if view is None:
+                failing.append({"input": src, "label": label, "impl": (w or "no WF field")[:600],
+                                "spec": ["the harness prints the C12 view of every definition"]})
+                continue
+            kinds[d.split(" ", 2)[1]] += 1
+            stats["into_cfg: " + (view["before"] if view["before"] in ("error", "panic") else "ok")] += 1
+            stats["into_ssa: " + (view["after"] if view["after"] in ("error", "panic", "skipped", "-") else "ok")] += 1
+            if view["before"] not in ("error", "panic"):
+                by_source[label.split("/")[0]] += 1
+                stats["graphs_checked"] += 1 + (view["after"] not in ("error", "panic", "skipped", "-"))
+                stats["graphs_with_phis"] += " P" in view["after"] or "[P" in view["after"]
+                stats["graphs_with_loops"] += " d1 " in view["before"]
+                stats["graphs_with_two_or_more_blocks"] += "; " in view["before"]
+                # feature patterns of the syntax-tree dump (harness/src/astdump.rs)
+                for feat, pat in (("signal declaration", " (sig "), ("component declaration", " comp "), ("`<==`", " acs "),
+                                  ("`<--`", " as "), ("`===`", "(ceq @"), ("assert", "(assert @"), ("log", "(log @"),
+                                  ("signal or component declared under control flow", None)):
+                    if pat is not None and pat in d:
+                        feats[feat] += 1
+                if any(dep > 0 for _, dep in view["nest"]) and (" (sig " in d or " comp " in d):
+                    feats["template with a loop"] += 1
+            bad = c12_failures(view)
+            if bad:
+                failing.append({"input": src, "label": label, "definition": d[:300], "impl": (w or "")[:3000], "spec": bad[:5]})
+    return {"failing": failing, "stats": dict(stats), "kinds": dict(kinds), "features": dict(feats),
+            "by_generator": dict(by_source), "programs": len(programs)}
+
+
+def c12_replay(common, src):
+    """Re-runs one source; prints the violated clauses; returns their number."""
+    hb = common.build_harness("liftfull")
+    line, = common.run_lines(hb, [], [c18gen.escape(src)])
+    f = split_records(line)
+    if isinstance(f, str):
+        print("harness:", f)
+        return 1
+    n = 0
+    for d, r, w in f:
+        view = c12_view(w)
+        print("definition    :", d[:160])
+        print("implementation:", (w or "-")[:2000])
+        bad = ["no C12 view printed"] if view is None else c12_failures(view)
+        for b in bad[:8]:
+            print("violated      :", b)
+        n += len(bad)
+    return n
 
 
 def replay_source(common, src):
@@ -244,6 +560,8 @@ def replay_source(common, src):
             text = m.split("\t")[0]
             if text.startswith("(panic) site "):
                 text = "(panic)"
+            if text == "(err invalid-name)" and r.startswith("(err invalid-name"):
+                text = r     # kind only (see run)
             same = text == r
             print("%s: %s" % (mode, "equal" if same else "DIFFERENT"))
             if not same:
@@ -252,6 +570,34 @@ def replay_source(common, src):
                 print("  mirror        : ..." + text[max(0, i - 150):i + 250])
                 bad += 1
     return bad
+
+
+def replay_walk(common, src, bound):
+    """Re-runs the trace / walk oracle on one source; prints the failures; returns their number."""
+    hb = common.build_harness("liftfull")
+    mb = common.build_model("liftfull")
+    line, = common.run_lines(hb, [], [c18gen.escape(src)])
+    f = split_records(line)
+    if isinstance(f, str):
+        print("harness:", f)
+        return 0
+    n = 0
+    for d, r, w in f:
+        if not r.startswith("(ok "):
+            continue
+        m, = common.run_lines(mb, ["tt", str(bound)], [d])
+        flags = dict(x.split(" ", 1) for x in m.split("\t")[1:] if " " in x)
+        view = c12_view(w)
+        if "TT" not in flags or view is None:
+            print("oracle not evaluated on", d[:120])
+            n += 1
+            continue
+        bad = lifteng.containment_failures(lifteng.parse_tree(flags["TT"]),
+                                           walk_tree(lifteng.parse_blocks(view["before"]), bound))
+        for b in bad[:5]:
+            print("violated      :", b)
+        n += len(bad)
+    return n
 
 
 def flags_for_sources(common, sources):
@@ -291,3 +637,61 @@ def flags_for_sources(common, sources):
         rows.append({"label": label, "src": src, "def": d, "impl": r, "model": mp[0],
                      "flags": dict(x.split(" ", 1) for x in mp[1:] if " " in x)})
     return rows, statuses
+
+
+# --------------------------------------------------------------------------
+# third audit: for the properties that CITE theorems about Model.LiftFull (C04, C08)
+# --------------------------------------------------------------------------
+
+def require_tie(common, ctx, prop, extra_sources=()):
+    """The theorems <prop>_liftfull_* speak about Model.LiftFull; the tie of that model to the real `into_cfg` used to
+    be run by `./check C13` only, so <prop>'s evidence could be green while the tie was broken.  This helper RUNS a
+    reduced tie inside <prop>'s own check: the fixed shapes, corpus/C13/liftfull-*.circom, `extra_sources`
+    ([(label, source)]: the caller's own programs, e.g. the definitions its generator produced) and a seeded sample of
+    the generated programs, both modes, text-equal dumps + error reports, as C13's stage.  Every disagreement is
+    reported through ctx.violation WITH the source as failing input (replay: `liftfull_src`; call
+    liftfull_engine.replay_tie from the property's replay()).  A tie that compared nothing is a violation too.
+    Returns a dict for the caller's coverage (put it under coverage["liftfull_tie"])."""
+    import random
+    seed = int(os.environ.get("VERIF_SEED", "1") or 1)
+    rng = random.Random(seed * 7919 + 13)
+    sample = [p for p in gen_programs(rng, True) if not p[0].startswith("fixed/")]
+    rng.shuffle(sample)
+    corpus = []
+    cdir = os.path.join(common.VERIF, "corpus", "C13")
+    if os.path.isdir(cdir):
+        for f in sorted(os.listdir(cdir)):
+            if f.startswith("liftfull-") and f.endswith(".circom"):
+                corpus.append(("corpus/" + f, open(os.path.join(cdir, f)).read()))
+    programs = [("fixed/" + k, v) for k, v in FIXED] + corpus + [("caller/" + str(a), b) for a, b in extra_sources] + sample[:400]
+    res = run(common, rng, True, programs=programs)
+    for d in res["disagreements"][:3]:
+        ctx.violation("stage liftfull (run inside the check of %s, which cites theorems about Model.LiftFull): the mirror and the "
+                      "real into_cfg disagree on this source (%d definitions in all; %s mode, label %s)"
+                      % (prop, len(res["disagreements"]), d["mode"], d["label"]),
+                      {"input": d["src"], "liftfull_src": d["src"], "impl": d.get("impl"),
+                       "spec": "Model.LiftFull.try_lift_impl (extracted) answers: %s" % (d.get("model"),),
+                       "broken": "correspondence liftfull (Model.LiftFull vs into_cfg)", "first": d})
+    for d in (res["wf_failures"] + res["thm_failures"])[:2]:
+        ctx.violation("stage liftfull (run inside the check of %s): a hypothesis / proved equation of the lifting mirror evaluates "
+                      "to false on this source: %s" % (prop, d.get("hypothesis") or d.get("flags")),
+                      {"input": d["src"], "liftfull_src": d["src"], "impl": str(d.get("impl") or d.get("flags"))[:500],
+                       "spec": "definition_wf, desugared_shape, SK and PV hold on every parsed and desugared definition",
+                       "broken": "hypotheses / equations of Model.LiftFull", "first": d})
+    compared = res["stats"]["definitions"] + res["stats"]["raw_definitions"]
+    if compared == 0:
+        ctx.violation("stage liftfull (run inside the check of %s) compared no definition" % prop,
+                      {"broken": "coverage: liftfull tie", "stats": res["stats"]}, no_input=True)
+    return {"what": "reduced run of C13's stage `content-carrying lifting mirror vs implementation` inside this check "
+                    "(fixed shapes, corpus, the caller's sources, a seeded sample of the generated programs; both modes)",
+            "programs": res["stats"]["programs"], "definitions_compared": compared,
+            "distinct_definitions": res["stats"].get("distinct_desugared", 0) + res["stats"].get("distinct_raw", 0),
+            "caller_sources": len(extra_sources), "disagreements": len(res["disagreements"]),
+            "hypothesis_or_equation_failures": len(res["wf_failures"]) + len(res["thm_failures"]),
+            "error_reports": res["errors"], "not_lifted": res["stats"]["statuses"]}
+
+
+def replay_tie(common, rep):
+    """replay() of a violation reported by require_tie: 1 if mirror and implementation still differ on the source."""
+    print("source:", rep["liftfull_src"])
+    return 1 if replay_source(common, rep["liftfull_src"]) else 0
